@@ -364,6 +364,132 @@ theorem mapE_pointwise {α β : Type} (f : α → Except Err β) (l : List α) (
       simp only [mapE, h0, this]
 
 
+/-! ## an invocation that is completed by the text after an expansion (`early_function_pos`) -/
+
+/-- the entry selected by an identifier *inside* the early region: function-like, its `(` at or beyond `next_pos`,
+not the macro applied last -/
+theorem matchMacro_at_early (toks : List PTok) (i : Nat) (sp : SearchPos) (k : Nat) (pre post : List Entry) (e : Entry)
+    (hpre : ∀ x ∈ pre, x.m.name ≠ e.m.name) (hen : e.disabled = false) (hfn : e.m.isFunction = true) (act : Nat)
+    (hpa : parenAfter toks i = some act) (hact : sp.next ≤ act) (hlast : sp.lastFn ≠ some (k + pre.length)) :
+    matchMacro toks i e.m.name sp k (pre ++ e :: post) = some (k + pre.length) := by
+  induction pre generalizing k with
+  | nil =>
+    simp only [List.nil_append, List.length_nil, Nat.add_zero] at hlast ⊢
+    unfold matchMacro
+    have h2 : ¬ act < sp.next := by omega
+    have h3 : ¬ (sp.lastFn = some k ∧ i < sp.next) := fun hh => hlast hh.1
+    simp [hen, hfn, hpa, h2, h3]
+  | cons x xs ih =>
+    have hx : e.m.name ≠ x.m.name := fun hh => hpre x (by simp) hh.symm
+    have ih' := ih (k + 1) (fun y hy => hpre y (by simp [hy]))
+      (by simpa [List.length_cons, Nat.add_assoc, Nat.add_comm 1] using hlast)
+    simp only [List.cons_append, List.length_cons]
+    unfold matchMacro
+    simp only [hx, if_false, ih', ite_self]
+    congr 1; omega
+
+theorem trimStart_first_nonblank (l : List PTok) (x : PTok) (tail : List PTok) (h : trimStart l = x :: tail)
+    (j : Nat) (t : PTok) (hj : l[j]? = some t) (ht : t.tok.isBlank = false) : l.length - (tail.length + 1) ≤ j := by
+  induction l generalizing j with
+  | nil => simp [trimStart] at h
+  | cons a r ih =>
+    unfold trimStart at h ih
+    rw [List.dropWhile_cons] at h
+    split at h
+    · rename_i hb
+      cases j with
+      | zero =>
+        simp only [List.getElem?_cons_zero, Option.some.injEq] at hj
+        subst hj
+        rw [ht] at hb; cases hb
+      | succ j' =>
+        have := ih h j' (by simpa using hj)
+        simp only [List.length_cons]
+        omega
+    · cases h
+      simp
+
+/-- the `(` found behind position `p` does not lie behind a later token that is not blank -/
+theorem parenAfter_le_nonblank (toks : List PTok) (p act q : Nat) (t : PTok) (h : parenAfter toks p = some act)
+    (hpq : p < q) (hq : toks[q]? = some t) (ht : t.tok.isBlank = false) : act ≤ q := by
+  obtain ⟨b, tail, htrim, hact⟩ := parenAfter_spec toks p act h
+  have hq' : (toks.drop (p + 1))[q - (p + 1)]? = some t := by
+    rw [List.getElem?_drop]
+    have : p + 1 + (q - (p + 1)) = q := by omega
+    rw [this]; exact hq
+  have := trimStart_first_nonblank _ _ _ htrim _ t hq' ht
+  simp only [List.length_drop] at this
+  have hlen : q < toks.length := (List.getElem?_eq_some_iff.mp hq).1
+  omega
+
+theorem trimStart_blank_prefix (blanks rest : List PTok) (h : ∀ t ∈ blanks, t.tok.isBlank = true) :
+    trimStart (blanks ++ rest) = trimStart rest := by
+  induction blanks with
+  | nil => rfl
+  | cons a r ih =>
+    unfold trimStart at ih ⊢
+    rw [List.cons_append, List.dropWhile_cons]
+    simp only [h a (by simp), if_true]
+    exact ih (fun t ht => h t (by simp [ht]))
+
+/-- **The scan of the early region finds the function-like name at the end of an expansion.**  After an invocation
+was replaced by `R0 ++ g :: blanks` (`P`: the tokens before it), with `next_pos` behind the expansion and
+`early_function_pos` at its start: if `g` names an enabled function-like entry other than the one applied last, only
+blanks (white space, comments) follow it inside the expansion, and the text behind the expansion starts -- after
+blanks -- with `(`, then `find_single_macro` reports an invocation of that entry at the position of `g`. -/
+theorem early_scan_finds_trailing_name (env : List Entry) (P R0 blanks rest : List PTok) (g : String) (b : Bool)
+    (mj : Nat) (e : Entry) (lastFn : Option Nat)
+    (hsel : Selects env g mj e) (hfn : e.m.isFunction = true) (hlast : lastFn ≠ some mj)
+    (hnc : NoConcat R0) (hblank : ∀ t ∈ blanks, t.tok.isBlank = true)
+    (hparen : ∃ b' tail, trimStart rest = ⟨.lparen, b'⟩ :: tail) :
+    findSingle (P ++ (R0 ++ ⟨.id g, b⟩ :: blanks) ++ rest)
+      ⟨P.length + (R0 ++ ⟨.id g, b⟩ :: blanks).length, P.length, lastFn⟩ env =
+      .ok (.user mj (P.length + R0.length)) := by
+  obtain ⟨b', tail, htrim⟩ := hparen
+  obtain ⟨henv, hprelen, hpre⟩ := selects_split hsel
+  have hlenR : (R0 ++ ⟨.id g, b⟩ :: blanks).length = R0.length + 1 + blanks.length := by simp; omega
+  generalize htoks : P ++ (R0 ++ ⟨.id g, b⟩ :: blanks) ++ rest = toks
+  have hlen : toks.length = P.length + (R0.length + 1 + blanks.length) + rest.length := by
+    rw [← htoks]; simp; omega
+  have hdropP : toks.drop P.length = R0 ++ (⟨.id g, b⟩ :: (blanks ++ rest)) := by
+    rw [← htoks]; simp [List.append_assoc]
+  have hgetg : toks[P.length + R0.length]? = some ⟨.id g, b⟩ := by
+    rw [← htoks, List.append_assoc, List.getElem?_append_right (by omega), List.append_assoc,
+      List.getElem?_append_right (by omega)]
+    simp
+  have hdropg : toks.drop (P.length + R0.length + 1) = blanks ++ rest := by
+    have h1 : toks.drop (P.length + R0.length) = ⟨.id g, b⟩ :: (blanks ++ rest) := by
+      rw [← List.drop_drop, hdropP, List.drop_left]
+    have := congrArg (List.drop 1) h1
+    simpa [List.drop_drop, Nat.add_comm 1] using this
+  -- the `(` behind `g`
+  have hpa : parenAfter toks (P.length + R0.length) = some (toks.length - (tail.length + 1)) := by
+    unfold parenAfter
+    rw [hdropg, trimStart_blank_prefix blanks rest hblank, htrim]
+  have htl : tail.length + 1 ≤ rest.length := by
+    have := trimStart_length_le rest
+    rw [htrim] at this
+    simpa using this
+  unfold findSingle
+  simp only [hlenR, Nat.le_add_right, if_true]
+  rw [hdropP]
+  rw [scanFrom_early_pass toks _ env R0 _ P.length hdropP (by simp only; omega) hnc]
+  · -- at `g`
+    have hm : matchMacro toks (P.length + R0.length) g
+        ⟨P.length + (R0.length + 1 + blanks.length), P.length, lastFn⟩ 0 env = some mj := by
+      have := matchMacro_at_early toks (P.length + R0.length)
+        ⟨P.length + (R0.length + 1 + blanks.length), P.length, lastFn⟩ 0 (env.take mj) (env.drop (mj + 1)) e hpre
+        hsel.enabled hfn _ hpa (by simp only; omega) (by simpa [hprelen] using hlast)
+      rw [← henv, hprelen, hsel.name, Nat.zero_add] at this
+      exact this
+    simp [scanFrom, hm]
+  · -- nothing in `R0` can start an invocation: its `(` would lie before `g`
+    intro p x bx hp h1 h2 k e' _ _ _ _ _ act hact
+    have := parenAfter_le_nonblank toks p act (P.length + R0.length) ⟨.id g, b⟩ hact (by omega) hgetg rfl
+    simp only
+    omega
+
+
 theorem passes_start (toks : List PTok) (env : List Entry) : Passes toks SearchPos.start env 0 := by
   simp [Passes, SearchPos.start]
 
